@@ -57,12 +57,12 @@ CHECKS = {
         "snake-casing and escaping; TLC enumerates documents by builder actions in factorised families (names incl. namespace prefixes and folding collisions; ordered attributes; text placement, "
         "blank runs, comments) and evaluates Decode under EVERY option combination of the domain (2^7 switches x 3 attribute prefixes x 2 key prefixes), checking one-root, accounting "
         "(every attribute/text/empty element appears exactly once) and that tag sequence numbers only add entries; every (document, option combination, expected Map) is replayed on the real "
-        "decoders through the public setters, each document rendered in one of three concrete syntaxes (quotes, empty-element form, CDATA / numeric references, XML declaration, BOM, leading comment). Sessions of the integrated specification Mxj.tla (every history of key-folding / prefix setter calls interleaved with decodes, the result compared after every decode) show that a decode depends on nothing but the registers at the time of the call.",
-   ref="DESIGN.md section 4, C01", technique="TLA+ transcription of the decode conventions, TLC enumeration of documents x all option combinations, spec->code replay"),
+        "decoders through the public setters, each document rendered in one of three concrete syntaxes (quotes, empty-element form, CDATA / numeric references, XML declaration, BOM, leading comment). Sessions of the integrated specification Mxj.tla (every history of key-folding / prefix setter calls interleaved with decodes, the result compared after every decode) show that a decode depends on nothing but the registers at the time of the call. Code->spec: seeded random sessions on the real package (setter calls interleaved with decodes of random documents of up to ~40 elements) are recorded and validated by the trace specification Trace_Xml.tla, which advances its own registers from the logged setter calls; and every NewMapXml call made by the repository's own test suite (observation hook VerifOnDecode) is validated against the decode specification.",
+   ref="DESIGN.md section 4, C01", technique="TLA+ transcription of the decode conventions, TLC enumeration of documents x all option combinations, spec->code replay; recorded sessions and the repository's own tests validated by a TLA+ trace specification"),
  "C02": dict(
    text="TLA+ specification MxjXmlEncode of the Map->XML encoder (attribute/text/element classification, sorting, list expansion, root rule) with an exact-bytes renderer; over the C01 document "
         "space and every symmetric option combination TLC checks the fixed point Decode(Encode(Decode(d))) = Decode(d) with a single well-formed root on the specification (character-level, incl. "
-        "encoder-side vs decoder-side escaping), and prints the decoded Map with the exact bytes Map.Xml() must produce; the harness compares Map.Xml() byte for byte, XmlIndent token-wise, and executes the real round trip for both encoders.",
+        "encoder-side vs decoder-side escaping), and prints the decoded Map with the exact bytes Map.Xml() must produce; the harness compares Map.Xml() byte for byte, XmlIndent token-wise, and executes the real round trip for both encoders. Code->spec: recorded sessions (Trace_Xml.tla) validate Map.Xml() of decoded random documents byte for byte against the encoder specification under the session's registers, and the re-decode where exactly one escaping switch is on.",
    ref="DESIGN.md section 4, C02", technique="TLA+ encoder/decoder specs, fixed-point theorem in TLC, byte-exact spec->code replay plus real round trip"),
  "C03": dict(
    text="Same encoder specification applied to JSON-shaped values enumerated by the Map builder (attribute and text keys, empty containers, nil, nested/mixed lists, special characters, number and boolean tokens): "
@@ -73,7 +73,7 @@ CHECKS = {
    text="TLA+ specification MxjSeq of the sequence-preserving codec: DecodeSeq (per-parent counter over children, text, comments, directives, processing instructions; attribute positions; prefix-preserving names) "
         "and EncodeSeq (attributes by position, text first, entries by sequence number with lists unrolled) with an exact-bytes renderer. TLC checks Encode(Decode(d)) = d (canonical form) for every document of the builder "
         "families (all ordered attribute choices incl. xmlns and prefixed ones, interleavings of identically/differently named siblings, extras at every position, text alone or before children); the harness compares "
-        "NewMapXmlSeq[Reader] with DecodeSeq, MapSeq.Xml byte for byte, XmlIndent / BeautifyXml / NewMapFormattedXmlSeq token-wise, and executes the real round trip.",
+        "NewMapXmlSeq[Reader] with DecodeSeq, MapSeq.Xml byte for byte, XmlIndent / BeautifyXml / NewMapFormattedXmlSeq token-wise, and executes the real round trip. Code->spec: recorded sessions (Trace_Xml.tla) validate NewMapXmlSeqReader and MapSeq.Xml() on random documents against DecodeSeq / RenderSeq and the canonical-form theorem on the observed data.",
    ref="DESIGN.md section 4, C04", technique="TLA+ codec spec with round-trip theorem (TLC), byte-exact spec->code replay"),
  "C05": dict(
    text="Character-level TLA+ definitions of XmlEscape / XmlUnescape and of the raw-text well-formedness predicate; TLC enumerates every string of <= N chunks over the five special characters, ';', '#', a letter, "
